@@ -21,6 +21,7 @@ From SC Require Import Lib.Prelude Lib.Int Lib.Host.
 (* contract kinds                                                      *)
 Inductive kind :=
 | KPaus       (* examples/fungible-pausable *)
+| KPausEx     (* examples/pausable: counter with increment under #[when_not_paused], emergency_reset under #[when_paused] *)
 | KPausLib    (* harness contract: pausable::{pause,unpause} + one entry point under each of #[when_not_paused] / #[when_paused] *)
 | KAllowEx    (* examples/fungible-allowlist (burn wired to AllowList::burn: the fixed tree) *)
 | KAllowLib   (* harness contract calling AllowList::{transfer,transfer_from,approve,burn,burn_from,allow_user,disallow_user} *)
@@ -28,13 +29,14 @@ Inductive kind :=
 | KBlockLib   (* harness contract calling every BlockList::* function *)
 | KCapEx      (* examples/fungible-capped *)
 | KCapLib     (* harness contract: set_cap / check_cap + Base::mint / Base burn *)
-| KUpgV1      (* harness contract with #[derive(Upgradeable)] *)
+| KUpgV1      (* examples/upgradeable/v1 (#[derive(Upgradeable)]); after its first successful upgrade the address
+                 runs examples/upgradeable/v2 (#[derive(UpgradeableMigratable)]) *)
 | KUpgV2      (* harness contract with #[derive(UpgradeableMigratable)] *)
 | KUpgLib.    (* harness contract exposing enable_migration / complete_migration / ensure_can_complete_migration *)
 
 Definition kind_eqb (a b : kind) : bool :=
   match a, b with
-  | KPaus, KPaus | KPausLib, KPausLib | KAllowEx, KAllowEx | KAllowLib, KAllowLib | KBlockEx, KBlockEx
+  | KPaus, KPaus | KPausEx, KPausEx | KPausLib, KPausLib | KAllowEx, KAllowEx | KAllowLib, KAllowLib | KBlockEx, KBlockEx
   | KBlockLib, KBlockLib | KCapEx, KCapEx | KCapLib, KCapLib | KUpgV1, KUpgV1
   | KUpgV2, KUpgV2 | KUpgLib, KUpgLib => true
   | _, _ => false
@@ -95,6 +97,8 @@ Definition set_mdata s v := mkState (now s) (supply s) (bal s) (alw s) (paused s
 Inductive op :=
 | Advance (n : Z)                                  (* ledger sequence += n (not a contract call) *)
 | Transfer (from to : addr) (amt : Z)
+| TransferMux (from to : addr) (id : Z) (amt : Z)  (* transfer whose `to` is a MuxedAddress (to, id): the token code
+                                                      only ever uses to.address(); the id goes into the event *)
 | TransferFrom (spender from to : addr) (amt : Z)
 | Approve (ow spender : addr) (amt live_until : Z)
 | Burn (from : addr) (amt : Z)
@@ -333,14 +337,39 @@ Definition exec_paus (c : cfg) (s : state) (au : list addr) (o : op) : res state
   | _ => Fail
   end.
 
+(* examples/pausable: the counter lives in the [supply] field (i32 in the code) *)
+Definition MAXI32 : Z := 2 ^ 31 - 1.
+Definition increment (s : state) : res state :=
+  do _ <- when_not_paused s;                              (* #[when_not_paused] *)
+  do _ <- guard (supply s + 1 <=? MAXI32);                (* counter += 1, overflow checks on *)
+  Ok (set_supply s (supply s + 1)).
+Definition emergency_reset (s : state) : res state :=
+  do _ <- when_paused s;                                  (* #[when_paused] *)
+  Ok (set_supply s 0).
+
+Definition exec_paus_ex (c : cfg) (s : state) (au : list addr) (o : op) : res state :=
+  match o with
+  | Pause caller =>
+      do _ <- require_auth au caller;
+      do _ <- guard (N.eqb (owner c) caller);
+      pause s
+  | Unpause caller =>
+      do _ <- require_auth au caller;
+      do _ <- guard (N.eqb (owner c) caller);
+      unpause s
+  | WhenNotPaused => increment s
+  | WhenPaused => emergency_reset s
+  | _ => Fail
+  end.
+
 (* library level: pausable::pause / unpause without any authorisation (the library has none),
-   packages/macros/src/pausable.rs: the check is inserted before the (empty) body *)
+   packages/macros/src/pausable.rs: the check is inserted before the body (same bodies as the example) *)
 Definition exec_paus_lib (c : cfg) (s : state) (au : list addr) (o : op) : res state :=
   match o with
   | Pause _ => pause s
   | Unpause _ => unpause s
-  | WhenNotPaused => do _ <- when_not_paused s; Ok s
-  | WhenPaused => do _ <- when_paused s; Ok s
+  | WhenNotPaused => increment s
+  | WhenPaused => emergency_reset s
   | _ => Fail
   end.
 
@@ -427,9 +456,13 @@ Definition exec_cap_lib (c : cfg) (s : state) (au : list addr) (o : op) : res st
   | _ => Fail
   end.
 
+(* v1 has only `upgrade`; once an upgrade succeeded the address runs v2, which has `upgrade` and
+   `migrate`.  Before the first upgrade the flag is clear, so "no migrate entry point" and "migrate
+   refused because the flag is clear" coincide: one definition serves both phases. *)
 Definition exec_upg_v1 (c : cfg) (s : state) (au : list addr) (o : op) : res state :=
   match o with
   | Upgrade w operator => upgrade c s au w operator
+  | Migrate d operator => migrate c s au d operator
   | _ => Fail
   end.
 
@@ -451,6 +484,7 @@ Definition exec_upg_lib (c : cfg) (s : state) (au : list addr) (o : op) : res st
 Definition exec_kind (fixed : bool) (c : cfg) (s : state) (au : list addr) (o : op) : res state :=
   match knd c with
   | KPaus => exec_paus c s au o
+  | KPausEx => exec_paus_ex c s au o
   | KPausLib => exec_paus_lib c s au o
   | KAllowEx => exec_allow_ex fixed c s au o
   | KAllowLib => exec_allow_lib c s au o
@@ -466,6 +500,7 @@ Definition exec_kind (fixed : bool) (c : cfg) (s : state) (au : list addr) (o : 
 Definition exec_gen (fixed : bool) (c : cfg) (s : state) (cl : call) : res state :=
   match fst cl with
   | Advance n => do _ <- guard (negb (n <? 0)); Ok (set_now s (now s + n))
+  | TransferMux f t _ a => exec_kind fixed c s (snd cl) (Transfer f t a)     (* to.address() *)
   | o => exec_kind fixed c s (snd cl) o
   end.
 
@@ -498,6 +533,14 @@ Definition init (c : cfg) : state :=
   | KBlockEx => set_bal (set_supply s (init_supply c)) (owner c) (init_supply c)
   | KCapEx => set_capv s (Some (init_cap c))
   | _ => s
+  end.
+
+(* does the constructor accept its arguments?  (set_cap: cap >= 0; Base::mint: 0 <= amount <= i128::MAX) *)
+Definition ctor_ok (c : cfg) : bool :=
+  match knd c with
+  | KPaus | KAllowEx | KBlockEx => (0 <=? init_supply c) && (init_supply c <=? MAX128)
+  | KCapEx => 0 <=? init_cap c
+  | _ => true
   end.
 
 Definition run_gen (fixed : bool) (c : cfg) (s : state) (cs : list call) : state :=
